@@ -31,7 +31,7 @@ func init() {
 		{Name: "f64.le loses its NaN guard", File: "internal/native/wat2x64/func.go", Old: "\t\tfmt.Fprintf(w, \"    setbe   al\\n\")\n\t\tfmt.Fprintf(w, \"    setnp   cl # set if not NaN\\n\")\n\t\tfmt.Fprintf(w, \"    and     al, cl\\n\")", New: "\t\tfmt.Fprintf(w, \"    setbe   al\\n\")", Nth: 1, Expect: "float-compare-truth-table :: f64.le"},
 		{Name: "f32.ne is false on NaN", File: "internal/native/wat2x64/func.go", Old: "\t\tfmt.Fprintf(w, \"    setne   al\\n\")\n\t\tfmt.Fprintf(w, \"    setp    cl # set if NaN\\n\")\n\t\tfmt.Fprintf(w, \"    or      al, cl\\n\")", New: "\t\tfmt.Fprintf(w, \"    setne   al\\n\")", Expect: "float-compare-truth-table :: f32.ne"},
 		{Name: "linux memmove helper copies in the wrong direction", File: "internal/native/wat2x64/assets/native-env-linux-x64.s", Old: "    cmp rdi, rsi ", New: "    cmp rsi, rdi ", Expect: "memmove-direction :: internal/native/wat2x64/assets/native-env-linux-x64.s"},
-		{Name: "i64.lt_u uses the signed condition", File: f, Old: "        fmt.Fprintf(w, \"    # i64.lt_u\\n\")\n\t\tfmt.Fprintf(w, \"    mov   r10, qword ptr [rbp%+d]\\n\", sp1)\n\t\tfmt.Fprintf(w, \"    mov   r11, qword ptr [rbp%+d]\\n\", sp0)\n\t\tfmt.Fprintf(w, \"    cmp   r10, r11\\n\")\n\t\tfmt.Fprintf(w, \"    setb  al\\n\")", New: "", Expect: "never"},
+		{Name: "i64.lt_u uses the signed condition", File: f, Old: "fmt.Fprintf(w, \"    # i64.lt_u\\n\")\n\t\tfmt.Fprintf(w, \"    mov   r10, qword ptr [rbp%+d]\\n\", sp1)\n\t\tfmt.Fprintf(w, \"    mov   r11, qword ptr [rbp%+d]\\n\", sp0)\n\t\tfmt.Fprintf(w, \"    cmp   r10, r11\\n\")\n\t\tfmt.Fprintf(w, \"    setb  al\\n\")", New: "fmt.Fprintf(w, \"    # i64.lt_u\\n\")\n\t\tfmt.Fprintf(w, \"    mov   r10, qword ptr [rbp%+d]\\n\", sp1)\n\t\tfmt.Fprintf(w, \"    mov   r11, qword ptr [rbp%+d]\\n\", sp0)\n\t\tfmt.Fprintf(w, \"    cmp   r10, r11\\n\")\n\t\tfmt.Fprintf(w, \"    setl  al\\n\")", Expect: "x64-core-op :: i64.lt_u"},
 		{Name: "i32.shr_s shifts logically", File: f, Old: "sar  eax, cl", New: "shr  eax, cl", Expect: "x64-core-op :: i32.shr_s"},
 		{Name: "i32.div_u divides signed", File: f, Old: "    div  dword ptr [rbp%+d]", New: "    idiv dword ptr [rbp%+d]", Expect: "x64-core-op :: i32.div_u"},
 		{Name: "i64.sub operands swapped", File: f, Old: "fmt.Fprintf(w, \"    mov rax, qword ptr [rbp%+d]\\n\", sp1)\n\t\tfmt.Fprintf(w, \"    sub rax, qword ptr [rbp%+d]\\n\", sp0)", New: "fmt.Fprintf(w, \"    mov rax, qword ptr [rbp%+d]\\n\", sp0)\n\t\tfmt.Fprintf(w, \"    sub rax, qword ptr [rbp%+d]\\n\", sp1)", Expect: "x64-operand-order :: i64.sub"},
@@ -343,8 +343,23 @@ func runC02(c *Ctx) {
 		}
 	}
 	c.Min("site-label-unique", "assembler labels defined by instruction arms of the native translators", nLabels, 36)
+	nCopy := 0
+	for _, tr := range translators {
+		if pk := p.Pkg(tr.pkg); pk != nil && tr.name != "wat2c" {
+			nCopy += copyDirection(c, p, pk, tr.name+" ")
+		}
+	}
+	c.Min("overlap-copy-direction", "result-moving loops of the native translators", nCopy, 12)
 	c02MemoryGrowLimit(c, p, x64)
 	c02ImmEncodable(c, p, x64, ins)
+	c02RemGuard(c, p, x64)
+	c02Locals(c, p)
+	if pk := p.Pkg("internal/native/wat2x64"); pk != nil {
+		c02CallPaths(c, p, pk)
+	}
+	if pk := p.Pkg("internal/native/wat2x64"); pk != nil {
+		c.Min("float-literal-exact", "float values written into the generated assembly", floatLiteralExact(c, p, pk, []string{"#"}, "wat2x64 "), 0)
+	}
 	// sibling agreement
 	var names []string
 	for k := range ins {
